@@ -56,6 +56,18 @@ theorem c18_delete_refuted {α : Type} (a : Args α) :
 
 example : ∃ f ∈ functions, applicable f .delSel = true ∧ tagBad f .delSel = false := by decide +kernel
 
+/-- Absent selectors / elements may reach the builders as the untyped nil or as a nil pointer of their
+    concrete type: the command built is the same (the model of `util.IsNil`; the harness passes both
+    forms in every argument position and compares the commands). -/
+theorem c18_builder_nil_forms_agree {α : Type} (cfg : Cfg) (fn : FnRow) (x : α) (a b c : ArgForm α) (pws : Bool) :
+    readCmdAny cfg fn x a b = readCmdAny cfg fn x a.forget b.forget ∧
+    notifyOrWriteCmdAny cfg fn x a b pws c = notifyOrWriteCmdAny cfg fn x a.forget b.forget pws c.forget :=
+  builder_nil_forms_agree cfg fn x a b c pws
+
+example : (ArgForm.typedNil 7 : ArgForm Nat).forget = .untypedNil ∧
+    readCmdAny clean ⟨"f", 1, "T", 2, false⟩ (0 : Nat) (.typedNil 7) .untypedNil =
+      readCmdAny clean ⟨"f", 1, "T", 2, false⟩ 0 .untypedNil .untypedNil := ⟨rfl, rfl⟩
+
 /-- REFUTED on every row of `tagFailing` (`tag:<field>`): what is recognised after the round trip is not
     what was put in — the selectors resp. elements are silently dropped (no field carries the function's
     tag), or the builder panics (the tag sits on a field of another type). -/
